@@ -53,7 +53,7 @@ Inductive dterm := DC (n : N) | DL (l : N).
 Inductive dgraph := GD | GC (c : cid) | GL (l : N).
 Definition stmt := (dterm * N * dterm * dgraph)%type.
 
-Inductive fmt := NT | NQ | TTL | TRIG | XML | TRIX | JLD | HEXT.
+Inductive fmt := NT | NQ | TTL | TRIG | XML | TRIX | JLD | HEXT | N3.
 Inductive disc := Fresh | Identity.
 
 (* read off the parsers (see the header); the correspondence check re-establishes it on every run *)
